@@ -79,7 +79,10 @@ pub fn any_msg(big: bool) -> BoxedStrategy<RespMsg> {
     } else {
         prop_oneof![5 => any_result_resp(true), 3 => entry_resp(), 1 => reference_resp(), 1 => intermediate_resp()].boxed()
     };
-    (prop_oneof![1i64..100, 0i64..=2147483647, Just(0i64), Just(2147483647i64)], resp, opt_controls(3)).prop_map(|(id, resp, ctrls)| RespMsg { id, resp, ctrls }).boxed()
+    let ordinary = (prop_oneof![1i64..100, 0i64..=2147483647, Just(0i64), Just(2147483647i64)], resp, opt_controls(3)).prop_map(|(id, resp, ctrls)| RespMsg { id, resp, ctrls });
+    // the one unsolicited notification RFC 4511 defines: Notice of Disconnection (message id 0)
+    let notice = rc().prop_map(|code| RespMsg::new(0, Resp::Result { app: 24, res: Res::code(code, "notice of disconnection"), sasl: None, exop_name: Some("1.3.6.1.4.1.1466.20036".into()), exop_val: None }));
+    prop_oneof![30 => ordinary, 1 => notice].boxed()
 }
 
 pub fn crit_form() -> BoxedStrategy<CritForm> {
